@@ -12,6 +12,7 @@ mod props {
     pub mod keys;
     pub mod blocksgen;
     pub mod drift;
+    pub mod mix;
 }
 
 use common::{CaseOut, Tier};
@@ -25,6 +26,7 @@ fn prop_header(prop: &str) -> &'static str {
         "C06" | "C07" | "C08" => props::keys::HEADER,
         "C03" | "C05" | "C12" => props::blocksgen::HEADER,
         "C01" | "C02" => props::drift::HEADER,
+        "C11" | "C13" | "C14" | "C20" => props::mix::HEADER,
         _ => panic!("unknown property {prop}"),
     }
 }
@@ -32,6 +34,10 @@ fn prop_header(prop: &str) -> &'static str {
 fn prop_gen(prop: &str, rng: &mut Rng, idx: usize, tier: Tier) -> CaseOut {
     match prop {
         "C09" => props::c09::generate(rng, idx, tier),
+        "C11" => props::mix::generate_c11(rng, idx, tier),
+        "C13" => props::mix::generate_c13(rng, idx, tier),
+        "C14" => props::mix::generate_c14(rng, idx, tier),
+        "C20" => props::mix::generate_c20(rng, idx, tier),
         "C01" => props::drift::generate(rng, idx, tier, false),
         "C02" => props::drift::generate(rng, idx, tier, idx % 2 == 1),
         "C03" => props::blocksgen::generate(props::blocksgen::Mode::Blocks, rng, idx, tier),
@@ -61,6 +67,11 @@ fn arg<'a>(args: &'a [String], name: &str) -> Option<&'a str> {
 fn main() -> anyhow::Result<()> {
     let args: Vec<String> = std::env::args().collect();
     imp::quiet_panics();
+    // the in-process implementation reads these; cases decide about them explicitly
+    for v in ["BLOCKWATCH_AI_API_KEY", "BLOCKWATCH_AI_API_URL", "BLOCKWATCH_AI_MODEL", "BLOCKWATCH_LUA_MODE", "BLOCKWATCH_TERMINAL_MODE"] {
+        // SAFETY: no other thread exists yet
+        unsafe { std::env::remove_var(v) };
+    }
     match args.get(1).map(|s| s.as_str()) {
         Some("reflect") => {
             let out = arg(&args, "--out").unwrap_or("/verif/coq/gen");
